@@ -165,8 +165,8 @@ def run(ctx):
             k += 1
             if pre and k % 4:
                 continue
-            variant = k % 3
-            bm = bmaps[k % 4]
+            variant = k % 4
+            bm = bmaps[(k // 4) % 4]
             boundary = M.boundary_bytes(M.BND, bm)
             syms = body_symbols(f, pre)
             body = M.conc_seq(syms, variant, bm)
